@@ -543,7 +543,7 @@ func drawScalar(t *rapid.T, label string, w32 bool, cls int) float64 {
 // Budget of the sampled part per kernel (totals over the shards of one build configuration).
 var (
 	RandQuick    = 3000
-	RandThorough = 40000
+	RandThorough = 30000
 )
 
 // RunFamily runs the exhaustive and the sampled sub-checks of every op whose
